@@ -212,6 +212,18 @@ impl C17 {
             g.prog.env.push((n, rng.pick(&arg_tys).clone()));
             ctx.count("feature/unused-env");
         }
+        // the cross-tx collision scenario (below) needs an env var and a parameter in each of two txs
+        let cross = collide && ntx >= 2 && rng.chance(1, 4);
+        if cross {
+            if g.prog.env.is_empty() {
+                g.prog.env.push((format!("crossEnv{}", rng.below(1000)), rng.pick(&arg_tys).clone()));
+            }
+            for t in 0..ntx {
+                if g.prog.txs[t].params.is_empty() {
+                    g.prog.txs[t].params.push((format!("crossParam{}x{t}", rng.below(1000)), rng.pick(&arg_tys).clone()));
+                }
+            }
+        }
         if rng.chance(1, 4) {
             g.prog.parties.push(format!("UnusedParty{}", rng.below(1000)));
             ctx.count("feature/unused-party");
@@ -263,7 +275,7 @@ impl C17 {
         }
         // two declared names made equal up to case (or fully equal across kinds)
         let mut collision: Option<String> = None;
-        if collide && all.len() >= 2 {
+        if collide && !cross && all.len() >= 2 {
             let a = *rng.pick(&all);
             let cands: Vec<(usize, usize, usize)> = all.iter().copied().filter(|b| *b != a && !(a.0 == 2 && b.0 == 2 && a.1 != b.1)).collect();
             if !cands.is_empty() {
@@ -291,7 +303,7 @@ impl C17 {
 
         // a third declaration of the same key: an env var and *two* parameters of one tx spelled exactly alike
         // (the first parameter is a legitimate shadow of the env var, the second is a duplicate parameter)
-        if collide && rng.chance(1, 4) && !names.env.is_empty() {
+        if collide && !cross && rng.chance(1, 4) && !names.env.is_empty() {
             if let Some(ti) = (0..names.params.len()).find(|t| names.params[*t].len() >= 2) {
                 let e = names.env[rng.usize(names.env.len())].clone();
                 if !names.params[ti].contains(&e) {
@@ -302,6 +314,29 @@ impl C17 {
                     }
                     collision = Some("env+param+param".into());
                     ctx.count("collision-attempt/env+param+param");
+                }
+            }
+        }
+        // the shadow exemption holds per (parameter, env var) pair: one tx shadows an env var legitimately (same
+        // spelling), *another* tx declares the same key in another spelling
+        if cross && !names.env.is_empty() {
+            let with_params: Vec<usize> = (0..names.params.len()).filter(|t| !names.params[*t].is_empty()).collect();
+            if with_params.len() >= 2 {
+                let e = names.env[rng.usize(names.env.len())].clone();
+                let variant = other_case(&e, rng);
+                let t1 = with_params[rng.usize(with_params.len())];
+                let t2 = *rng.pick(&with_params.iter().copied().filter(|t| *t != t1).collect::<Vec<_>>());
+                let taken = |n: &Names, x: &String| n.params.iter().flatten().any(|p| p == x) || n.parties.contains(x);
+                if variant != e && !taken(&names, &e) && !taken(&names, &variant) {
+                    let (i1, i2) = (rng.usize(names.params[t1].len()), rng.usize(names.params[t2].len()));
+                    let old1 = names.params[t1][i1].clone();
+                    src = rename_ident(&src, &old1, &e);
+                    names.params[t1][i1] = e.clone();
+                    let old2 = names.params[t2][i2].clone();
+                    src = rename_ident(&src, &old2, &variant);
+                    names.params[t2][i2] = variant;
+                    collision = Some("env+shadow+case-variant-in-another-tx".into());
+                    ctx.count("collision-attempt/env+shadow+case-variant-in-another-tx");
                 }
             }
         }
@@ -700,7 +735,7 @@ impl Property for C17 {
         "C17"
     }
     fn rule(&self) -> String {
-        "the real `tx3c build <src> --emit tii` binary is run (one process per program) on generated programs whose parameters, env vars and parties are re-spelled in lower / UPPER / mixed case, with unused parameters / env vars / parties, policies of every form, optional --profile / --profile-env-file flags and, in the collision phase, two declared names made equal up to case; the file is read as JSON and for every tx: the envelope decodes (declared encoding and version) to an IR canonically equal to lower(P, tx) computed in-process; every key of find_params(decoded IR) is declared as a parameter, party or environment entry under the identical spelling (a case-insensitive match only is `spelling`, none is `undeclared`), is declared in one section only and no other declared key equals it up to case (`collision`); a request built from exactly the declared keys (values typed by the declared schemas; parties and parameters in args, environment in env) passes parse_resolve_request, returns every required key with the supplied value and leaves no value parameter after apply_args. typed-params: hand-shaped programs whose tx takes a parameter typed by a record, a variant, a chain of 0..3 aliases of one, or a list / map of it (next to, or without, aliases of primitive types) and uses it as a datum: every key the embedded IR requires must be declared. In the collision phase any two declarations visible to one tx whose keys are equal up to letter case (incl. an env var plus two parameters spelled alike) must be refused by the analyzer, a parameter spelled exactly like an env var excepted. Non-trivial: the IR requires >= 1 key and >= 2 keys are declared; distinct = distinct (source, tx).".into()
+        "the real `tx3c build <src> --emit tii` binary is run (one process per program) on generated programs whose parameters, env vars and parties are re-spelled in lower / UPPER / mixed case, with unused parameters / env vars / parties, policies of every form, optional --profile / --profile-env-file flags and, in the collision phase, two declared names made equal up to case; the file is read as JSON and for every tx: the envelope decodes (declared encoding and version) to an IR canonically equal to lower(P, tx) computed in-process; every key of find_params(decoded IR) is declared as a parameter, party or environment entry under the identical spelling (a case-insensitive match only is `spelling`, none is `undeclared`), is declared in one section only and no other declared key equals it up to case (`collision`); a request built from exactly the declared keys (values typed by the declared schemas; parties and parameters in args, environment in env) passes parse_resolve_request, returns every required key with the supplied value and leaves no value parameter after apply_args. typed-params: hand-shaped programs whose tx takes a parameter typed by a record, a variant, a chain of 0..3 aliases of one, or a list / map of it (next to, or without, aliases of primitive types) and uses it as a datum: every key the embedded IR requires must be declared. In the collision phase any two declarations visible to one tx whose keys are equal up to letter case (incl. an env var plus two parameters spelled alike, and an env var shadowed exactly by a parameter of one tx while a parameter of another tx spells the key differently) must be refused by the analyzer, a parameter spelled exactly like an env var excepted. Non-trivial: the IR requires >= 1 key and >= 2 keys are declared; distinct = distinct (source, tx).".into()
     }
     fn assumptions(&self) -> Vec<String> {
         vec![
@@ -717,7 +752,7 @@ impl Property for C17 {
         }
     }
     fn required_features(&self, _tier: Tier) -> Vec<String> {
-        let mut v: Vec<String> = ["cli/ok", "closure/closed", "feature/unused-param", "feature/unused-env", "feature/env-vars", "feature/policy-assign", "feature/policy-hash-only", "feature/policy-with-script", "cli/profile-env-file", "cli/profile-flag", "typed-params/checked", "collision-attempt/env+param+param"].iter().map(|s| s.to_string()).collect();
+        let mut v: Vec<String> = ["cli/ok", "closure/closed", "feature/unused-param", "feature/unused-env", "feature/env-vars", "feature/policy-assign", "feature/policy-hash-only", "feature/policy-with-script", "cli/profile-env-file", "cli/profile-flag", "typed-params/checked", "collision-attempt/env+param+param", "collision-attempt/env+shadow+case-variant-in-another-tx"].iter().map(|s| s.to_string()).collect();
         for k in ["env", "party", "param"] {
             for s in ["lower", "upper", "mixed"] {
                 v.push(format!("style/{k}/{s}"));
